@@ -30,16 +30,25 @@ def generate(rng, tier):
         c.op("new one cfb_%s %s %s %s" % (direction, rng.choice(["new", "inner", "slices"]), hx(key), hx(iv)))
         c.op("new buf buf_%s %s %s %s" % (direction, rng.choice(["new", "inner", "slices"]), hx(key), hx(iv)))
         o1 = feed(c, rng, "blk", msg, len(msg), bs, schedule(rng, nb, w))
-        o2 = c.op("async one ip %s" % hx(msg))
+        o2 = async_op(c, rng, "one", msg)
         o3 = stream_feed(c, rng, "buf", "buf", msg, byte_pieces(rng, len(msg), bs), places=("ip",))
         c.expect("block-level CFB = one-shot CFB", lambda r, o1=o1, o2=o2: joined(r, o1) == rbytes(r[o2]))
         c.expect("buffered CFB = one-shot CFB", lambda r, o3=o3, o2=o2: joined(r, o3) == rbytes(r[o2]))
         # and with a partial tail: buffered vs one-shot
         tail = rbytes_n(rng, rng.randint(1, bs - 1)) if bs > 1 else b""
-        o4 = c.op("async one ip %s" % hx(msg + tail))
+        o4 = async_op(c, rng, "one", msg + tail)
         o5 = c.op("buf buf ip %s" % hx(tail))
         c.expect("buffered CFB continues like one-shot CFB on a partial tail",
                  lambda r, o3=o3, o5=o5, o4=o4: joined(r, o3) + rbytes(r[o5]) == rbytes(r[o4]))
+        # a message shorter than one block, from fresh objects
+        if bs > 1:
+            short = rbytes_n(rng, rng.randint(1, bs - 1))
+            c.op("new one2 cfb_%s new %s %s" % (direction, hx(key), hx(iv)))
+            c.op("new buf2 buf_%s new %s %s" % (direction, hx(key), hx(iv)))
+            o6 = async_op(c, rng, "one2", short)
+            o7 = c.op("buf buf2 ip %s" % hx(short))
+            c.expect("buffered CFB = one-shot CFB on a message shorter than a block",
+                     lambda r, o6=o6, o7=o7: rbytes(r[o6]) == rbytes(r[o7]))
         cases.append(c)
     # --- OFB four ways (two families) ---
     common = [(bs, w, dm) for (bs, w, dm) in BLOCK_CFGS for (b2, w2, d2, ks) in STREAM_CFGS if (bs, w, dm) == (b2, w2, d2)]
